@@ -166,6 +166,93 @@ pub async fn exec_emit(a: &Args) -> Args {
     out
 }
 
+// ------------------------------------------------------------------ 632 opening under exhausted stream credit
+/// args[0] = [kind]: kind 0 = the application holds as many unidirectional streams as the peer allows
+/// and has one more open_uni() waiting; a bidirectional stream must still open and carry data.
+/// kind 1 = the same with the kinds swapped (C07: a stream waiting for credit blocks only itself).
+pub async fn exec_open_credit(a: &Args) -> Args {
+    let kind = a[0][0];
+    let mut t = quinn::TransportConfig::default();
+    if kind == 0 {
+        t.max_concurrent_uni_streams(4u32.into()); // the control stream + three of the application
+    } else {
+        t.max_concurrent_bidi_streams(3u32.into());
+    }
+    let (server, addr) = wt_server(None);
+    let ep = raw_client(Some(t));
+    let (app, raw) = tokio::join!(wt_accept(&server), raw_establish(&ep, addr, "/credit"));
+    let (conn, raw) = match (app, raw) {
+        (Ok(c), Ok(r)) => (c, r),
+        _ => return vec![vec![2]],
+    };
+    let mut held_u = vec![];
+    let mut held_b = vec![];
+    for _ in 0..3 {
+        if kind == 0 {
+            match tokio::time::timeout(T_CALL, async { conn.open_uni().await?.await.map_err(|_| wtransport::error::ConnectionError::LocallyClosed) }).await {
+                Ok(Ok(mut s)) => { let _ = s.write_all(b"held").await; held_u.push(s); }
+                _ => return vec![vec![2]],
+            }
+        } else {
+            match tokio::time::timeout(T_CALL, async { conn.open_bi().await?.await.map_err(|_| wtransport::error::ConnectionError::LocallyClosed) }).await {
+                Ok(Ok((mut s, r))) => { let _ = s.write_all(b"held").await; held_b.push((s, r)); }
+                _ => return vec![vec![2]],
+            }
+        }
+    }
+    // one more of the same kind: has to wait for credit
+    let c2 = conn.clone();
+    let waiting = tokio::spawn(async move {
+        if kind == 0 {
+            match tokio::time::timeout(Duration::from_millis(2500), c2.open_uni()).await { Ok(Ok(_)) => 0u64, Ok(Err(_)) => 3, Err(_) => TAG_PENDING }
+        } else {
+            match tokio::time::timeout(Duration::from_millis(2500), c2.open_bi()).await { Ok(Ok(_)) => 0u64, Ok(Err(_)) => 3, Err(_) => TAG_PENDING }
+        }
+    });
+    tokio::time::sleep(Duration::from_millis(250)).await;
+    // the other kind
+    let c3 = conn.clone();
+    let other = tokio::spawn(async move {
+        let r = tokio::time::timeout(Duration::from_millis(1500), async {
+            if kind == 0 {
+                let (mut s, _r) = c3.open_bi().await.map_err(|_| ())?.await.map_err(|_| ())?;
+                s.write_all(b"other-kind").await.map_err(|_| ())?;
+                let _ = s.finish().await;
+            } else {
+                let mut s = c3.open_uni().await.map_err(|_| ())?.await.map_err(|_| ())?;
+                s.write_all(b"other-kind").await.map_err(|_| ())?;
+                let _ = s.finish().await;
+            }
+            Ok::<(), ()>(())
+        }).await;
+        match r { Ok(Ok(())) => 1u64, Ok(Err(())) => 3, Err(_) => TAG_PENDING }
+    });
+    let mut seen: Vec<u8> = vec![];
+    if kind == 0 {
+        if let Ok(Ok((_s, mut r))) = tokio::time::timeout(Duration::from_millis(2000), raw.conn.accept_bi()).await {
+            seen = read_all(&mut r, Duration::from_millis(800)).await.0;
+        }
+    } else {
+        for _ in 0..2 {
+            if let Ok(Ok(mut r)) = tokio::time::timeout(Duration::from_millis(2000), raw.conn.accept_uni()).await {
+                let d = read_all(&mut r, Duration::from_millis(600)).await.0;
+                if d.first() == Some(&0x40) {
+                    seen = d;
+                    break;
+                }
+                std::mem::forget(r);
+            }
+        }
+    }
+    let o = other.await.unwrap_or(9);
+    let w = waiting.await.unwrap_or(9);
+    drop(held_u);
+    drop(held_b);
+    server.close(vi(0), b"");
+    ep.close(qvi(0), b"");
+    vec![vec![1], vec![o], b2a(&seen), vec![w]]
+}
+
 // ------------------------------------------------------------------ 641 signals
 /// args[0] = [op, code, nbytes]
 /// op 6: finish() retried after an abandoned finish() while nothing can be acknowledged
@@ -495,6 +582,12 @@ pub fn oracle(f: u32, a: &Args, out: &Args) -> Option<(&'static str, String)> {
         return None;
     }
     match f {
+        632 => {
+            if out[1] != vec![1] {
+                return Some(("C07", format!("with every {} stream the peer allows in use and one more open waiting for credit, opening a {} stream did not complete ({:?})", if a[0][0] == 0 { "unidirectional" } else { "bidirectional" }, if a[0][0] == 0 { "bidirectional" } else { "unidirectional" }, out[1])));
+            }
+            None
+        }
         631 => {
             // C16 on the implementation alone: what the endpoint emitted, against bytes composed here
             // from the specifications' constants
@@ -554,7 +647,7 @@ pub fn oracle(f: u32, a: &Args, out: &Args) -> Option<(&'static str, String)> {
                     let mut want = vec![1u64, 0];
                     want.extend(a[src].iter());
                     if out[i] != want {
-                        return Some(("C01", format!("session {}: the peer wrote {} bytes on a {} stream and finished it; the application got {:?}", out[0][1], a[src].len(), name, &out[i][..out[i].len().min(12)])));
+                        return Some(("C01+C17", format!("session {}: the peer wrote {} bytes on a {} stream and finished it; the application got {:?}", out[0][1], a[src].len(), name, &out[i][..out[i].len().min(12)])));
                     }
                 }
             }
@@ -770,6 +863,10 @@ pub fn generate(rng: &mut Rng, thorough: bool, which: &str) -> Vec<Case> {
                 cs.push(Case::new(631, vec![vec![burn], b2a(&rng.bytes(n)), b2a(b"bidi-payload"), b2a(b"dgram-payload")], "emit"));
             }
             cs.push(Case::new(631, vec![vec![0], vec![], vec![], vec![]], "emit-empty"));
+        }
+        "credit" => {
+            cs.push(Case::new(632, vec![vec![0]], "uni-credit-exhausted"));
+            cs.push(Case::new(632, vec![vec![1]], "bidi-credit-exhausted"));
         }
         "signals" => {
             let codes: Vec<u64> = if thorough { vec![0, 1, 63, 64, 16383, 16384, (1 << 30) - 1, 1 << 30, (1 << 62) - 1] } else { vec![0, 63, 64, 16384, 1 << 30, (1 << 62) - 1] };
